@@ -17,7 +17,8 @@ SEARCH_OBJ = $(patsubst engines/%.cpp,$(B)/prod/%.o,$(SEARCH_SRC))
 SEARCH_AOBJ = $(patsubst engines/%.cpp,$(B)/asan/%.o,$(SEARCH_SRC))
 
 .PHONY: all prod asan clean
-all: prod
+all: prod asan
+asan: $(B)/copymove_asan
 prod: $(B)/search $(B)/segmentation $(B)/dynamic $(B)/multidim $(B)/mapped $(B)/cabi
 
 $(STAMP):
@@ -68,6 +69,12 @@ $(B)/cabi: $(B)/prod/cabi.o $(B)/prod/cpgm.o
 
 $(B)/cabi_asan: $(B)/asan/cabi.o $(B)/asan/cpgm.o
 	$(CXX) $(ASAN) $^ -o $@
+
+$(B)/copymove_asan: $(B)/asan/copymove.o
+	$(CXX) $(ASAN) $^ -o $@
+
+$(B)/copymove: $(B)/prod/copymove.o
+	$(CXX) $(PROD) $^ -o $@
 
 $(B)/search_asan: $(SEARCH_AOBJ)
 	$(CXX) $(ASAN) $^ -o $@
